@@ -3,7 +3,7 @@ from ..rules import topology, delivery
 from .common import declare
 
 RULES = ['BOTH-ENDS', 'PER-UPSTREAM-OVERRIDE', 'BELIEF-CONSISTENT', 'WEAK-DOWN', 'STRONG-SINK', 'DESTROY-SUPER', 'FANOUT', 'NONE-SENTINEL', 'EDIT-ATOMIC']
-FLOORS = {'BOTH-ENDS': 5, 'PER-UPSTREAM-OVERRIDE': 4, 'BELIEF-CONSISTENT': 0, 'WEAK-DOWN': 3, 'STRONG-SINK': 4,
+FLOORS = {'BOTH-ENDS': 5, 'PER-UPSTREAM-OVERRIDE': 6, 'BELIEF-CONSISTENT': 0, 'WEAK-DOWN': 3, 'STRONG-SINK': 4,
           'DESTROY-SUPER': 3, 'FANOUT': 3, 'EDIT-ATOMIC': 4}
 
 META = {
